@@ -44,7 +44,7 @@ if os.path.exists(nt):
     rc = {}
     for v in last.values():
         rc[v] = rc.get(v, 0) + 1
-    txt += "**False-alarm test.** %d behaviour-preserving refactorings (`neutral/N*/`: renamed locals, reordered independent statements, `match` vs `if let`, hoisted expressions, early return vs if/else, loops rewritten, added `debug_assert!`s, extracted helpers, ...) were written by independent sub-agents over the verified functions in four batches and run through the same checks (`tools/run_neutral.sh`; `neutral/RESULTS.txt` keeps every run, the latest run of each pair counts): %s. " % (
+    txt += "**False-alarm test.** %d behaviour-preserving refactorings (`neutral/N*/`: renamed locals, reordered independent statements, `match` vs `if let`, hoisted expressions, early return vs if/else, loops rewritten, added `debug_assert!`s, extracted helpers, ...) were written by independent sub-agents over the verified functions in five batches and run through the same checks (`tools/run_neutral.sh`; `neutral/RESULTS.txt` keeps every run, the latest run of each pair counts): %s. " % (
         len(set(k[0] for k in last)), ", ".join("%s runs exit %s" % (v, k) for k, v in sorted(rc.items())))
     txt += ("This test produced **four kinds of false alarm** (exit 1 on code where the property holds), every one repaired in the machinery and never by loosening a contract: "
             "(1) N15: a loop bound hoisted into a local made the `decreases` clause of `crypt_package` unprovable (extracted functions are since verified with loop isolation off); "
